@@ -47,7 +47,7 @@ def replay_static(case) -> dict:
         rows = [(ax, R), (ax2, R2)]
         pos2 = np.array([[1.0, 2.0, 3.0], [4.0, 5.0, 6.0]])
         for pair in ("zy", "zx", "yx"):
-            kw = {c: np.array([np.array(a[c], dtype=float) for a, _ in rows]) for c in pair}
+            kw = {c: np.array([np.array(a[c], dtype=float) * (1.0 + i) for i, (a, _) in enumerate(rows)]) for c in pair}
             mol = engine.api(Molecules.from_axes, pos2, **kw)
             for i, (_, Ri) in enumerate(rows):
                 ang = _angle(mol.rotator[i], Ri)
@@ -62,12 +62,15 @@ def replay_static(case) -> dict:
         if np.max(np.abs(np.asarray(got).ravel() - want)) > tolv:
             fails.append(dict(desc, clause="Axes", axis=name, observed=np.asarray(got).ravel().round(6).tolist(), expected=want.tolist()))
     # reconstruction from two (unnormalised) axes
+    # any valid pair of axes, of any (non-zero) length: the spec's axes are numerators, here also rescaled
     for pair in ("zy", "zx", "yx"):
-        kw = {c: np.array([ax[c]], dtype=float) for c in pair}
-        m2 = engine.api(Molecules.from_axes, pos, **kw)
-        ang = _angle(m2.rotator[0], R)
-        if ang > 1e-3:
-            fails.append(dict(desc, clause="FromAxes", pair=pair, angle_deg=round(ang, 4), mixed=False))
+        for f0, f1 in ((1.0, 1.0), (2.0, 1.0), (1.0, 3.0), (0.5, 0.25)):
+            kw = {pair[0]: np.array([ax[pair[0]]], dtype=float) * f0, pair[1]: np.array([ax[pair[1]]], dtype=float) * f1}
+            m2 = engine.api(Molecules.from_axes, pos, **kw)
+            ang = _angle(m2.rotator[0], R)
+            if ang > 1e-3:
+                fails.append(dict(desc, clause="FromAxes", pair=pair, angle_deg=round(ang, 4), mixed=False, lengths=[f0, f1]))
+                break
     # representation round trips (relations between real calls)
     for name, back in (
         ("quat", lambda: Molecules.from_quat(pos, mol.quaternion())),
@@ -136,6 +139,7 @@ def replay_program(case) -> dict:
 
     fails = []
     mol = _mk(case["init"])
+    tracked = [[mol, case["init"]]]      # every object ever seen in the session with the pose it must currently have
     for step, (op, tr) in enumerate(zip(case["prog"], case["traj"])):
         name, copy = op["name"], bool(op["copy"])
         desc = dict(part="program", op=name, via=op.get("via", ""), copy=copy, step=step)
@@ -169,6 +173,21 @@ def replay_program(case) -> dict:
             break
         if out.features["tag"].to_list() != [7]:
             fails.append(dict(desc, clause="FeaturesLost"))
+            break
+        # copy=True never alters ANY earlier object of the session, copy=False alters only its receiver
+        for ent in tracked:
+            if ent[0] is recv:
+                ent[1] = tr["receiver_after"]
+        if not any(ent[0] is out for ent in tracked):
+            tracked.append([out, tr["post"]])
+        stale = False
+        for obj, pose in tracked:
+            dp, da = _pose_err(obj, pose)
+            if dp > 2e-4 or da > 2e-3:
+                fails.append(dict(desc, clause="EarlierObjectAltered", dpos=round(dp, 5), dang_deg=round(da, 4)))
+                stale = True
+                break
+        if stale:
             break
         mol = out
     return dict(failures=fails)
